@@ -213,12 +213,17 @@ func replayOne(id int, steps []step, rnd *rand.Rand, big bool, stable bool) (res
 	res.MigratingAtEnd = migSlot != ""
 	res.Redirects = cl.Redirects
 	// convergence: a bounded number of refresh rounds after the first redirection
+	// (bounded but patient: a round without any redirection ends the wait; the bound on refresh rounds itself is
+	// checked by cluster-converge against Refresh.tla)
 	var before int64
-	for round := 0; round < 4; round++ {
+	for round := 0; round < 40; round++ {
 		time.Sleep(15 * time.Millisecond) // > refresh min rate (5 ms)
 		before = cl.Redirects
 		for i, mk := range modelKeys {
 			do(1000+round*10+i, B("exists"), B(concreteKey(mk)))
+		}
+		if round >= 3 && cl.Redirects == before {
+			break
 		}
 	}
 	res.RedirectsAfter = cl.Redirects - before
